@@ -6,6 +6,7 @@
     ([toy_endpoint_satisfies_hypothesis]).  Partial with respect to the property sentence only
     in that WireGuard itself (ana-gotatun) and its timers are this oracle. *)
 From Sci Require Import Snap.Model_C09 Snap.Spec_C09 Snap.Proofs_C09.
+From Coq Require Import Lia.
 Local Open Scope N_scope.
 
 (** After ANY history of register / clock / purge / packet / timer events, at most one key is
@@ -67,6 +68,38 @@ Theorem nothing_after_lapse :
       ~ flows_for id o.
 Proof. intros. eapply run_nothing_after_lapse; eassumption. Qed.
 Print Assumptions nothing_after_lapse.
+
+(** "... or is superseded by a new identity under the same token": from any state in which key k
+    is associated with id, registering a different identity under k makes id unauthorised at
+    once, and nothing flows for id in whatever follows until id registers again. *)
+Theorem nothing_after_supersede :
+  forall (wg pkt payload : Type) wg_new wg_in wg_out wg_tick hs_peer is_keepalive
+         (s : @state wg) k id id' l (es : list (@event pkt payload)),
+    associations (reg s) k = Some id -> id' <> id ->
+    (forall e, In e es -> ~ registers id e) ->
+    forall s1 e o,
+      In (s1, e, o) (snd (@run wg pkt payload wg_new wg_in wg_out wg_tick hs_peer is_keepalive s
+                            (ERegister k id' l :: es))) ->
+      ~ flows_for id o.
+Proof.
+  intros wg pkt payload wg_new wg_in wg_out wg_tick hs_peer is_keepalive s k id id' l es Ha Hne Hnr s1 e o Hin.
+  destruct (step_register_reg wg pkt payload wg_new wg_in wg_out wg_tick hs_peer is_keepalive s k id' l)
+    as (Hr & Hn & Hf).
+  rewrite run_cons in Hin. cbn [snd] in Hin. destruct Hin as [Heq|Hin].
+  - inversion Heq; subst. apply Hf.
+  - refine (run_nothing_after_lapse wg pkt payload wg_new wg_in wg_out wg_tick hs_peer is_keepalive es _ id _ Hnr s1 e o Hin).
+    rewrite Hr, Hn. exact (supersede_unauthorizes (reg s) (now s) k id id' l (now s) Ha Hne).
+Qed.
+Print Assumptions nothing_after_supersede.
+
+(** "after a registration lapses": a session whose expiry is not strictly after t does not
+    authorise at t (the comparison is the strict one of the source) *)
+Theorem lapsed_registration_not_authorized :
+  forall (r : registry) id e t, sessions r id = Some e -> e <= t -> is_authorized r t id = false.
+Proof.
+  intros r id e t Hs Hle. unfold is_authorized. rewrite Hs, reg_auth_strict. lia.
+Qed.
+Print Assumptions lapsed_registration_not_authorized.
 
 (** Attribution: in every run from the empty server, a payload forwarded from address a is
     attributed to (session data of) identity id only if the datagram was authenticated by id,
